@@ -564,9 +564,18 @@ func (le *LockEngine) analyse(fn *ssa.Function) *fnLockInfo {
 			}
 		}
 		static := le.callers[fn] > 0
-		if consistent && static && len(first) > 0 {
+		exported := fn.Object() != nil && fn.Object().Exported() && fn.Parent() == nil
+		positive := false
+		for _, v := range first {
+			if v.Depth > 0 {
+				positive = true
+			}
+		}
+		if consistent && static && len(first) > 0 && !(exported && positive) {
 			fi.Summary = first // a wrapper: callers account for it
 		} else {
+			// (an exported function that returns holding a lock is never a wrapper: its callers outside the module,
+			// or through an interface, cannot release an unexported mutex)
 			// every held lock at an exit is a leak; every negative is a release of unheld
 			seen := map[string]bool{}
 			for i, e := range exitSummaries {
